@@ -40,12 +40,14 @@ func (t *TransactionCancelTimer) Start() error {
 		case <-timer.C:
 			// Timer fired, process TransactionCancel action
 			log.Infof("TransactionCancelTimer triggered")
+			verifYield("timer.fired")
 			if t.fnc != nil {
 				t.fnc()
 			}
 		case <-t.done:
 			// Stop the timer
 			log.Infof("TransactionCancelTimer stopped")
+			verifYield("timer.stopped")
 			t.done = nil
 		}
 	}()
